@@ -471,4 +471,244 @@ theorem conv64_eq (p : Parts) (hN : litN p ≠ 0) :
         · rw [h1, h2]; rfl
         · rw [h1, h2]; rfl
 
+/-! ## assembling: `deFloatRoundtrip false = convertRoundtrip` -/
+
+/-- the moderate-path layer for the call `de.rs` makes on `p` -/
+def ModOk (single : Bool) (p : Parts) : Prop :=
+  match deCall p with
+  | .concise sig e => ModerateOk (fc single) (fmtOf single) sig e false sig e
+  | .truncated integer fraction e =>
+    ModerateOk (fc single) (fmtOf single)
+      (truncatedMantissa (integer ++ trimTrailingZeros fraction) 0).1
+      (mantissaExponent e (trimTrailingZeros fraction).length (truncatedMantissa (integer ++ trimTrailingZeros fraction) 0).2)
+      true (natOfDigits (integer ++ trimTrailingZeros fraction)) (e - (trimTrailingZeros fraction).length)
+  | _ => True
+
+/-- not the shape of known finding C07-zero-tail: if bhcomp has to drop digits, one of them is non-zero -/
+def NoZeroTail (single : Bool) (p : Parts) : Prop :=
+  match deCall p with
+  | .truncated integer fraction _ =>
+    (fc single).maxDigits - 1 < (sigDigits integer (trimTrailingZeros fraction)).length →
+      0 < natOfDigits ((sigDigits integer (trimTrailingZeros fraction)).drop ((fc single).maxDigits - 1))
+  | _ => True
+
+theorem all_zero_iff (ds : Bytes) (hd : IsDigits ds) : ds.all (· == 0x30) = (natOfDigits ds == 0) := by
+  induction ds with
+  | nil => simp [natOfDigits]
+  | cons c cs ih =>
+    have hc := hd c (List.mem_cons_self ..)
+    have hcs : IsDigits cs := fun x hx => hd x (List.mem_cons_of_mem _ hx)
+    have hv : natOfDigits (c :: cs) = dig c * 10 ^ cs.length + natOfDigits cs := by
+      rw [natOfDigits_eq_val, val_cons, val_eq]; simp
+    rw [List.all_cons, ih hcs, hv]
+    by_cases h0 : c = 0x30
+    · subst h0
+      have : dig (0x30 : UInt8) = 0 := by decide
+      simp [this]
+    · have hb : (c == 0x30) = false := by simpa using h0
+      have hdig : 1 ≤ dig c := by
+        have h48 := UInt8.le_iff_toNat_le.1 hc.1
+        change 48 ≤ c.toNat at h48
+        have : c.toNat ≠ 48 := fun hh => h0 (UInt8.toNat_inj.1 (by simpa using hh))
+        simp only [dig]; omega
+      have hp : 1 ≤ 10 ^ cs.length := Nat.one_le_pow _ _ (by decide)
+      have : 1 ≤ dig c * 10 ^ cs.length := Nat.mul_le_mul hdig hp
+      rw [hb, Bool.false_and]
+      symm
+      rw [beq_eq_false_iff_ne]
+      omega
+
+/-- a passing exponent is at most `i32::MAX` in absolute value -/
+theorem litExp_bound (p : Parts) (wf : WF p) (hf : ExpFits p) : -(2147483647 : Int) ≤ litExp p ∧ litExp p ≤ 2147483647 := by
+  unfold litExp
+  cases hexp : p.exp with
+  | none => simp
+  | some e =>
+    obtain ⟨en, eds⟩ := e
+    obtain ⟨hed, hene⟩ := wf.exp_digits en eds hexp
+    have hfit := hf en eds hexp
+    rcases expDigits_spec eds hed hene with ⟨_, h2⟩ | ⟨_, _, h3⟩
+    · rw [hfit] at h2; cases h2
+    · simp only [i32Max] at h3
+      cases en <;> simp <;> omega
+
+/-- saturating the decimal exponent at `i32::MIN` does not change the (zero) result -/
+theorem roundMag_sat {c : FC} {F : Fmt} (h : FCok c F) (N : Nat) (E : Int) (hN : N < 2 ^ 64) (hE : E ≤ 2147483647) :
+    roundMag F (dNum F N (satI32 E)) (dDen (satI32 E)) = roundMag F (dNum F N E) (dDen E) := by
+  by_cases hlo : -2147483648 ≤ E
+  · rw [satI32_id' E hlo hE]
+  · have hs : satI32 E = -2147483648 := by unfold satI32; rw [if_neg (by omega), if_pos (by omega)]
+    have hN20 : N < 10 ^ 20 := by
+      have : (2 : Nat) ^ 64 < 10 ^ 20 := by norm_num
+      omega
+    rw [hs, tiny_underflows h N 20 _ hN20 (by omega), tiny_underflows h N 20 _ hN20 (by omega)]
+
+theorem u64_lt_80 (N : Nat) (h : N ≤ u64Max) : N < 2 ^ 80 ∧ N < 2 ^ 64 := by
+  simp only [u64Max] at h
+  constructor <;> omega
+
+/-- `-(significand as f64)` for a significand that fits `u64` is the rounding of `-significand` -/
+theorem neg_ofU64 (N : Nat) (hN : N ≤ u64Max) :
+    NRes.f64 (SJ.Spec.Ieee.F64.neg (SJ.Spec.Ieee.F64.ofU64 N)) =
+      finish64 true (roundMag b64 (dNum b64 N 0) (dDen 0)) := by
+  have h := fcok64
+  obtain ⟨h80, _⟩ := u64_lt_80 N hN
+  have hfin := finite_of_small h N h80
+  have e1 : dNum b64 N 0 = N * 2 ^ b64.qexp := by unfold dNum; simp
+  have e2 : dDen 0 = 1 := rfl
+  rw [e1, e2]
+  have ht := roundOrInf64_toNat N 1 Nat.one_pos
+  unfold clampInf at ht
+  rw [if_pos hfin] at ht
+  have hof : SJ.Spec.Ieee.F64.ofU64 N = UInt64.ofNat (roundMag b64 (N * 2 ^ b64.qexp) 1) := by
+    apply UInt64.toNat_inj.1
+    have : SJ.Spec.Ieee.F64.ofU64 N = (SJ.Spec.Ieee.roundNE64 false N 1).getD (SJ.Spec.Ieee.F64.inf false) := rfl
+    rw [this, ht, UInt64.toNat_ofNat']
+    exact (Nat.mod_eq_of_lt (by have := infBits64_lt; omega)).symm
+  unfold finish64
+  rw [hof, if_pos hfin, neg_ofNat _ (by have := infBits64_lt; omega)]
+  simp
+
+/-- **binary64.** `deFloatRoundtrip false` is `Model.Num.convertRoundtrip`, given the moderate-path layer for the
+    call made and the absence of the zero-tail shape -/
+theorem deFloat64_eq (p : Parts) (wf : WF p) (hlen : (p.int ++ p.frac.getD []).length + 20 < 2 ^ 29)
+    (hz : NoZeroTail false p) (hmod : ModOk false p) :
+    deFloatRoundtrip false p = convertRoundtrip p := by
+  have h := fcok64
+  have hpres := deCall_presents p wf
+  unfold deFloatRoundtrip
+  unfold NoZeroTail at hz
+  unfold ModOk at hmod
+  cases hcall : deCall p with
+  | number r =>
+    rw [hcall] at hpres
+    obtain ⟨hfr, hexp, hN, hr⟩ := hpres
+    have hNint : litN p = natOfDigits p.int := by simp [litN, hfr]
+    simp only [runCall]
+    unfold convertRoundtrip intClass
+    simp only [hfr, hexp]
+    rw [hr, ← hNint]
+    simp only [u64Max] at hN
+    cases hneg : p.neg
+    · simp only [Bool.not_false, if_true]
+      rw [if_pos (by omega)]
+    · simp only [Bool.not_true, Bool.false_eq_true, if_false]
+      by_cases h0 : litN p = 0
+      · have hb : (litN p == 0) = true := by simpa using h0
+        simp only [hb, if_true]
+        rw [if_neg (by omega)]
+        unfold convertRoundtrip.conv
+        rw [exact_eq, hb, if_pos rfl, h0, hneg]
+        rfl
+      · have hb : (litN p == 0) = false := by simpa using h0
+        simp only [hb, Bool.false_eq_true, if_false]
+        by_cases h63 : litN p ≤ 2 ^ 63
+        · rw [if_pos h63, if_pos ⟨by omega, h63⟩]
+        · rw [if_neg h63, if_neg (by omega)]
+          rw [conv64_eq p h0, hneg]
+          have hE : litE p = 0 := by simp [litE, litExp, hexp, hfr]
+          rw [hE]
+          exact neg_ofU64 (litN p) (by simp only [u64Max]; omega)
+  | expOverflow zs pe =>
+    rw [hcall] at hpres
+    obtain ⟨en, eds, hexp, hov, hzs, hpe⟩ := hpres
+    simp only [runCall]
+    unfold convertRoundtrip
+    have hic : intClass p = none := by unfold intClass; rw [hexp]; cases p.frac <;> rfl
+    rw [hic]
+    simp only [hexp, hov, if_true]
+    rw [hzs, hpe]
+    have := all_zero_iff (p.int ++ p.frac.getD []) (isDigits_append wf.int_digits wf.frac_digits)
+    rw [this]; rfl
+  | concise sig e =>
+    rw [hcall] at hpres hmod
+    obtain ⟨hsig, hs64, he, hfit⟩ := hpres
+    simp only [runCall]
+    have hs64' := (u64_lt_80 sig hs64).2
+    rw [parseConcise_eq false sig e hs64' hmod]
+    have hfmt : fmtOf false = b64 := rfl
+    rw [hfmt]
+    unfold roundDec
+    rw [finishFloat64]
+    simp only [Bool.not_not]
+    -- the saturated exponent
+    obtain ⟨hx1, hx2⟩ := litExp_bound p wf hfit
+    have hEle : litE p ≤ 2147483647 := by unfold litE; omega
+    rw [he, hsig, roundMag_sat h (litN p) (litE p) (hsig ▸ hs64') hEle]
+    -- the specification
+    have hconv : convertRoundtrip p = convertRoundtrip.conv p := by
+      unfold convertRoundtrip
+      have hic : intClass p = none := by
+        unfold intClass
+        cases hfr : p.frac with
+        | some f => rfl
+        | none =>
+          cases hexp : p.exp with
+          | some e => rfl
+          | none =>
+            -- a literal without fraction and exponent is never presented as `concise`
+            exfalso
+            have := deCall_presents p wf
+            unfold deCall at hcall
+            rcases goInt_spec 0 p.int wf.int_digits (by simp [u64Max]) with ⟨g1, _⟩ | ⟨pre, c', post, _, _, _, g3⟩
+            · rw [g1] at hcall; simp only [hfr, hexp] at hcall; split at hcall <;> cases hcall
+            · rw [g3] at hcall; simp only [parseLongInteger, hfr, hexp, f64LongFromParts] at hcall; cases hcall
+      rw [hic]
+      cases hexp : p.exp with
+      | none => rfl
+      | some e' =>
+        obtain ⟨en, eds⟩ := e'
+        simp only []
+        rw [hfit en eds hexp]
+        simp
+    rw [hconv]
+    by_cases h0 : litN p = 0
+    · unfold convertRoundtrip.conv
+      have hb : (litN p == 0) = true := by simpa using h0
+      rw [exact_eq, hb, if_pos rfl, h0]
+      unfold dNum finish64
+      simp only [Nat.zero_mul, roundMag_zero]
+      rw [if_pos (by have := infBits64_lt; unfold Fmt.infBits b64; norm_num), signBit_eq]
+    · rw [conv64_eq p h0]
+  | truncated integer fraction e =>
+    rw [hcall] at hpres hmod hz
+    obtain ⟨hNv, hEv, hdi, hdf, hbig, hhead, he1, he2, hfit, hsl⟩ := hpres
+    simp only [runCall]
+    have hlen' : integer.length + fraction.length < 2 ^ 29 := by omega
+    rw [parseTruncated_eq false integer fraction e hdi hdf hhead (by rw [hNv]; simp only [u64Max] at hbig; omega) hlen' hz hmod]
+    have hfmt : fmtOf false = b64 := rfl
+    rw [hfmt, hNv, hEv]
+    unfold roundDec
+    rw [finishFloat64]
+    simp only [Bool.not_not]
+    have h0 : litN p ≠ 0 := by simp only [u64Max] at hbig; omega
+    rw [← conv64_eq p h0]
+    unfold convertRoundtrip
+    have hic : intClass p = none := by
+      unfold intClass
+      cases hfr : p.frac with
+      | some f => rfl
+      | none =>
+        cases hexp : p.exp with
+        | some e => rfl
+        | none =>
+          simp only []
+          have hNint : litN p = natOfDigits p.int := by simp [litN, hfr]
+          rw [← hNint]
+          simp only [u64Max] at hbig
+          cases p.neg
+          · simp only [Bool.not_false, if_true]; rw [if_neg (by omega)]
+          · simp only [Bool.not_true, Bool.false_eq_true, if_false]
+            have hb : (litN p == 0) = false := by simpa using h0
+            rw [hb]; simp only [Bool.false_eq_true, if_false]
+            rw [if_neg (by omega)]
+    rw [hic]
+    cases hexp : p.exp with
+    | none => rfl
+    | some e' =>
+      obtain ⟨en, eds⟩ := e'
+      simp only []
+      rw [hfit en eds hexp]
+      simp
+
 end SJ.Proofs.LexCorrect
